@@ -42,6 +42,10 @@ def handbuilt():
     m.add_func('', 'I', (), i64_const(0x7fffffffffffffff) + i64_const(-1) + op(0x7c), export='a')
     m.add_func('f', 'f', [(1, F64)], local_get(0) + op(0x8c), export='b')
     m.add_func('', 'F', (), f64_const(0x3ff0000000000001) + f32_const(0x3fc00000) + op(0xbb) + op(0xa0), export='c')
+    # the longest decimal renderings: negative, 17 significant digits, three-digit exponent (-DBL_MAX, -DBL_MIN, a negative subnormal), and the f32 analogues
+    m.add_func('', 'F', (), f64_const(0xffefffffffffffff) + f64_const(0x8010000000000000) + op(0xa0) + f64_const(0x800fffffffffffff) + op(0xa0) + f64_const(0xa4b6de4b1d3c7f21) + op(0xa0), export='d')
+    m.add_func('', 'f', (), f32_const(0xff7fffff) + f32_const(0x80800000) + op(0x92) + f32_const(0x807fffff) + op(0x92), export='e')
+    m.globals.append((F64, 0, f64_const(0xffefffffffffffff))); m.globals.append((F64, 0, f64_const(0x800fffffffffffff)))
     mods.append(('hand-small', m.encode()))
     m = Module()
     m.mems.append((1, None))
